@@ -192,7 +192,11 @@ pub struct Harvest {
 pub fn harvest() -> Harvest {
     let root = repo_root();
     let mut files = vec![];
-    walk(&root, &mut files);
+    // only the repository's own source directories (a scratch worktree may hold other files, e.g. the
+    // demonstration programs of a seeded change, which must not leak into the corpus)
+    for d in ["fixtures", "rusty_basic", "rusty_bit_vec", "rusty_common", "rusty_linter", "rusty_parser", "rusty_pc", "rusty_variant"] {
+        walk(&root.join(d), &mut files);
+    }
     let mut seen: BTreeSet<String> = BTreeSet::new();
     let mut texts = vec![];
     for f in &files {
